@@ -442,7 +442,10 @@ class GridUFunc:
         axis: Sequence[str],
         **kwargs,
     ):
+        # every option bound at definition time acts as a call-time default
+        boundary_width = kwargs.pop("boundary_width", self.boundary_width)
         boundary = kwargs.pop("boundary", self.boundary)
+        fill_value = kwargs.pop("fill_value", self.fill_value)
         dask = kwargs.pop("dask", self.dask)
         map_overlap = kwargs.pop("map_overlap", self.map_overlap)
         pad_before_func = kwargs.pop("pad_before_func", self.pad_before_func)
@@ -452,8 +455,9 @@ class GridUFunc:
             axis=axis,
             grid=grid,
             signature=self.signature,
-            boundary_width=self.boundary_width,
+            boundary_width=boundary_width,
             boundary=boundary,
+            fill_value=fill_value,
             dask=dask,
             map_overlap=map_overlap,
             pad_before_func=pad_before_func,
